@@ -238,7 +238,7 @@ fn main() {
             }
         }
     };
-    run_space(&mut ctx, "short", &short, if t { 6 } else { 5 }, &probes, 0);
+    run_space(&mut ctx, "short", &short, if t { 7 } else { 6 }, &probes, 0);
     let mut sl: Vec<&str> = short.clone();
     sl.extend(long.iter());
     run_space(&mut ctx, "short+long", &sl, 3, &probes, short.len());
@@ -259,6 +259,40 @@ fn main() {
                     }
                 }
             }
+        }
+    }
+    // rear lengths as such: the list [x^r, y] stores r in the variable-byte code of its second string.
+    // EVERY r up to R (all of the 1-byte class, the 1/2-byte boundary; thorough: all of the 2-byte class
+    // and the 2/3-byte boundary), then offsets inside each longer class whose bytes are pairwise
+    // different and non-zero (a byte written to the wrong place, or twice, changes the value)
+    let ub: [usize; 5] = [0, 128, 128 + (1 << 14), 128 + (1 << 14) + (1 << 21), 128 + (1 << 14) + (1 << 21) + (1 << 28)];
+    let mut rears: Vec<usize> = (0..=if t { 40_000 } else { 1_500 }).collect();
+    for v in [0x0102usize, 0x2155, 0x3ffe, 0x3fff] {
+        rears.push(ub[1] + v);
+    }
+    for v in [0x010203usize, 0x020100, 0x1f8055, 0x1fffff, 0x00ff00, 0x0000ff] {
+        rears.push(ub[2] + v);
+    }
+    for v in [0x0001_0203usize, 0x0002_0100, 0x0080_0155, 0x0102_0304] {
+        rears.push(ub[3] + v);
+    }
+    if t {
+        rears.extend((0..ub[3] - ub[2]).step_by(4099).map(|v| ub[2] + v));
+        rears.extend((0..40usize << 20).step_by(1_048_573 * 3).map(|v| ub[3] + v));
+        rears.extend([ub[4] - 1, ub[4], ub[4] + 1, ub[4] + 0x0001_0203, ub[4] + 0x0102_0304]);
+    }
+    for r in rears {
+        if !ctx.case(|| format!("RearCodedList family=rear-length r={r}")) {
+            continue;
+        }
+        ctx.nontrivial();
+        let big = "x".repeat(r);
+        let probes = ["".to_string(), "x".to_string(), "y".to_string(), "xy".to_string()];
+        check(&mut ctx, &[big.as_str(), "y"], 2, &probes);
+        if r > 0 {
+            // the same rear length after a shared prefix of one character
+            let pre = format!("x{}", "w".repeat(r));
+            check(&mut ctx, &[pre.as_str(), "xy", "z"], 4, &probes);
         }
     }
     // long sorted lists with shared prefixes (binary search over many blocks)
